@@ -70,7 +70,7 @@
     // native stand-in. The Verus unit proves that `advance` keeps the invariant for sources of any length; that every
     // consumer (eat_string, eat_number, eat_identifier, operators, raw blocks, whitespace handling) moves the position
     // through it is checked here on the real tokenizer for every short source.
-//# ob name=token_positions_native role=native_bounded fn=compiler::lexer::Tokenizer::{next_token,tokenize_root,tokenize_block_or_var,eat_string,eat_number,eat_identifier,skip_whitespace,handle_raw_tag} kind=bounded bound="every source made of 1..=4 fragments from a 21-fragment alphabet (tag, comment and raw delimiters, both string quotes, line feed, CR LF, identifier, number, operators, dot, backslash, a 2-byte character, the 3-byte line separator U+2028, space): 204204 sources x {template mode, expression mode} x {default, trim_blocks+lstrip_blocks}" stmt="after every token (and at every lexer error) the tokenizer's line is 1 + the number of line feeds before its offset and its column the number of characters since the last of them; every span returned with a token starts and ends on character boundaries inside the source, start <= end, and its start / end line and column are those of the source text at the start / end offset - so the line recorded for any token or lexer error is the line of the text it points at"
+//# ob name=token_positions_native role=native_bounded fn=compiler::lexer::Tokenizer::{next_token,tokenize_root,tokenize_block_or_var,eat_string,eat_number,eat_identifier,skip_whitespace,handle_raw_tag} kind=bounded bound="every source made of 1..=3 fragments (1..=4 in the thorough tier: 204204 sources) from a 21-fragment alphabet (tag, comment and raw delimiters, both string quotes, line feed, CR LF, identifier, number, operators, dot, backslash, a 2-byte character, the 3-byte line separator U+2028, space): 9723 sources x {template mode, expression mode} x {default, trim_blocks+lstrip_blocks}" stmt="after every token (and at every lexer error) the tokenizer's line is 1 + the number of line feeds before its offset and its column the number of characters since the last of them; every span returned with a token starts and ends on character boundaries inside the source, start <= end, and its start / end line and column are those of the source text at the start / end offset - so the line recorded for any token or lexer error is the line of the text it points at"
     fn token_positions_native() {
         fn pos_of(src: &str, off: usize) -> (u16, u16) {
             let pre = &src[..off];
@@ -81,7 +81,8 @@
         let frags = ["{{", "}}", "{%", "%}", "\"", "'", "\n", "\r\n", "ab", "12", "+", ".", "\\", "é", "\u{2028}", " ", "{% raw %}", "{% endraw %}", "{#", "#}", "-"];
         let n = frags.len();
         let mut count = 0u64;
-        for len in 1..=4usize {
+        let max_len = if std::env::var("VERIF_TIER").as_deref() == Ok("thorough") { 4usize } else { 3 };
+        for len in 1..=max_len {
             let mut idx = vec![0usize; len];
             loop {
                 let src: String = idx.iter().map(|i| frags[*i]).collect();
@@ -120,5 +121,5 @@
                 if p == len { break; }
             }
         }
-        assert!(count > 800_000, "{count}");
+        assert!(count > 38_000, "{count}");
     }
